@@ -70,6 +70,12 @@ Proofs/CoreRefine.vos Proofs/CoreRefine.vok Proofs/CoreRefine.required_vos: Proo
 Proofs/TailCalls.vo Proofs/TailCalls.glob Proofs/TailCalls.v.beautified Proofs/TailCalls.required_vo: Proofs/TailCalls.v Base/Base.vo Model/Reader.vo Model/Printer.vo Model/Store.vo Model/Eval.vo Proofs/EvalRel.vo
 Proofs/TailCalls.vio: Proofs/TailCalls.v Base/Base.vio Model/Reader.vio Model/Printer.vio Model/Store.vio Model/Eval.vio Proofs/EvalRel.vio
 Proofs/TailCalls.vos Proofs/TailCalls.vok Proofs/TailCalls.required_vos: Proofs/TailCalls.v Base/Base.vos Model/Reader.vos Model/Printer.vos Model/Store.vos Model/Eval.vos Proofs/EvalRel.vos
+Proofs/ReadPrint.vo Proofs/ReadPrint.glob Proofs/ReadPrint.v.beautified Proofs/ReadPrint.required_vo: Proofs/ReadPrint.v Base/Base.vo Model/Reader.vo Model/Printer.vo Model/Store.vo Model/Eval.vo Proofs/ReaderTotal.vo Proofs/Decimal.vo
+Proofs/ReadPrint.vio: Proofs/ReadPrint.v Base/Base.vio Model/Reader.vio Model/Printer.vio Model/Store.vio Model/Eval.vio Proofs/ReaderTotal.vio Proofs/Decimal.vio
+Proofs/ReadPrint.vos Proofs/ReadPrint.vok Proofs/ReadPrint.required_vos: Proofs/ReadPrint.v Base/Base.vos Model/Reader.vos Model/Printer.vos Model/Store.vos Model/Eval.vos Proofs/ReaderTotal.vos Proofs/Decimal.vos
+Proofs/Positions.vo Proofs/Positions.glob Proofs/Positions.v.beautified Proofs/Positions.required_vo: Proofs/Positions.v Base/Base.vo Model/Reader.vo Proofs/ReaderTotal.vo
+Proofs/Positions.vio: Proofs/Positions.v Base/Base.vio Model/Reader.vio Proofs/ReaderTotal.vio
+Proofs/Positions.vos Proofs/Positions.vok Proofs/Positions.required_vos: Proofs/Positions.v Base/Base.vos Model/Reader.vos Proofs/ReaderTotal.vos
 Props/C01.vo Props/C01.glob Props/C01.v.beautified Props/C01.required_vo: Props/C01.v Base/Base.vo Model/Reader.vo Model/Printer.vo Model/Store.vo Model/Eval.vo Model/Init.vo Proofs/EvalRel.vo Proofs/Cont.vo Proofs/CoreRefine.vo Spec/CoreSem.vo
 Props/C01.vio: Props/C01.v Base/Base.vio Model/Reader.vio Model/Printer.vio Model/Store.vio Model/Eval.vio Model/Init.vio Proofs/EvalRel.vio Proofs/Cont.vio Proofs/CoreRefine.vio Spec/CoreSem.vio
 Props/C01.vos Props/C01.vok Props/C01.required_vos: Props/C01.v Base/Base.vos Model/Reader.vos Model/Printer.vos Model/Store.vos Model/Eval.vos Model/Init.vos Proofs/EvalRel.vos Proofs/Cont.vos Proofs/CoreRefine.vos Spec/CoreSem.vos
@@ -94,6 +100,9 @@ Props/C07.vos Props/C07.vok Props/C07.required_vos: Props/C07.v Base/Base.vos Mo
 Props/C08.vo Props/C08.glob Props/C08.v.beautified Props/C08.required_vo: Props/C08.v Base/Base.vo Model/Reader.vo Proofs/ReaderTotal.vo
 Props/C08.vio: Props/C08.v Base/Base.vio Model/Reader.vio Proofs/ReaderTotal.vio
 Props/C08.vos Props/C08.vok Props/C08.required_vos: Props/C08.v Base/Base.vos Model/Reader.vos Proofs/ReaderTotal.vos
+Props/C09.vo Props/C09.glob Props/C09.v.beautified Props/C09.required_vo: Props/C09.v Base/Base.vo Model/Reader.vo Model/Printer.vo Model/Store.vo Model/Eval.vo Model/Init.vo Proofs/Decimal.vo Proofs/ReadPrint.vo
+Props/C09.vio: Props/C09.v Base/Base.vio Model/Reader.vio Model/Printer.vio Model/Store.vio Model/Eval.vio Model/Init.vio Proofs/Decimal.vio Proofs/ReadPrint.vio
+Props/C09.vos Props/C09.vok Props/C09.required_vos: Props/C09.v Base/Base.vos Model/Reader.vos Model/Printer.vos Model/Store.vos Model/Eval.vos Model/Init.vos Proofs/Decimal.vos Proofs/ReadPrint.vos
 Props/C10.vo Props/C10.glob Props/C10.v.beautified Props/C10.required_vo: Props/C10.v Base/Base.vo Model/Reader.vo Model/Printer.vo Model/Store.vo Model/Eval.vo Model/Init.vo Proofs/EvalRel.vo
 Props/C10.vio: Props/C10.v Base/Base.vio Model/Reader.vio Model/Printer.vio Model/Store.vio Model/Eval.vio Model/Init.vio Proofs/EvalRel.vio
 Props/C10.vos Props/C10.vok Props/C10.required_vos: Props/C10.v Base/Base.vos Model/Reader.vos Model/Printer.vos Model/Store.vos Model/Eval.vos Model/Init.vos Proofs/EvalRel.vos
@@ -109,6 +118,9 @@ Props/C14.vos Props/C14.vok Props/C14.required_vos: Props/C14.v Base/Base.vos Mo
 Props/C15.vo Props/C15.glob Props/C15.v.beautified Props/C15.required_vo: Props/C15.v Base/Base.vo Model/Reader.vo Model/Printer.vo Model/Store.vo Model/Eval.vo Model/Init.vo Proofs/Decimal.vo Proofs/Strings.vo
 Props/C15.vio: Props/C15.v Base/Base.vio Model/Reader.vio Model/Printer.vio Model/Store.vio Model/Eval.vio Model/Init.vio Proofs/Decimal.vio Proofs/Strings.vio
 Props/C15.vos Props/C15.vok Props/C15.required_vos: Props/C15.v Base/Base.vos Model/Reader.vos Model/Printer.vos Model/Store.vos Model/Eval.vos Model/Init.vos Proofs/Decimal.vos Proofs/Strings.vos
+Props/C16.vo Props/C16.glob Props/C16.v.beautified Props/C16.required_vo: Props/C16.v Base/Base.vo Model/Reader.vo Model/Printer.vo Model/Store.vo Model/Eval.vo Model/Init.vo Proofs/ReaderTotal.vo Proofs/Positions.vo
+Props/C16.vio: Props/C16.v Base/Base.vio Model/Reader.vio Model/Printer.vio Model/Store.vio Model/Eval.vio Model/Init.vio Proofs/ReaderTotal.vio Proofs/Positions.vio
+Props/C16.vos Props/C16.vok Props/C16.required_vos: Props/C16.v Base/Base.vos Model/Reader.vos Model/Printer.vos Model/Store.vos Model/Eval.vos Model/Init.vos Proofs/ReaderTotal.vos Proofs/Positions.vos
 Props/C17.vo Props/C17.glob Props/C17.v.beautified Props/C17.required_vo: Props/C17.v Base/Base.vo Model/Reader.vo Model/Printer.vo Model/Store.vo Model/Eval.vo Model/Init.vo Proofs/Sort.vo
 Props/C17.vio: Props/C17.v Base/Base.vio Model/Reader.vio Model/Printer.vio Model/Store.vio Model/Eval.vio Model/Init.vio Proofs/Sort.vio
 Props/C17.vos Props/C17.vok Props/C17.required_vos: Props/C17.v Base/Base.vos Model/Reader.vos Model/Printer.vos Model/Store.vos Model/Eval.vos Model/Init.vos Proofs/Sort.vos
